@@ -1453,6 +1453,8 @@ func (e sentry) packet() *com.Packet {
 		n := &com.Packet{ID: task.MvTime}
 		n.WriteUint8(0) // sleep/jitter order cut after its type byte
 		return n
+	case "cwd":
+		return task.Cwd("/nonexistent-c12/missing-directory") // fails: no such directory
 	}
 	return task.Pwd()
 }
@@ -1467,7 +1469,7 @@ func (e sentry) term(after *msess) string {
 		return "ERefresh " + machTerm(after)
 	case "profile":
 		return "EProfile"
-	case "bad":
+	case "bad", "cwd":
 		return "EBad"
 	}
 	return "EPlain"
@@ -1553,6 +1555,13 @@ func runSync(srvM, cliM *msess, script bool, stop bool, es []sentry) (r sres) {
 	return r
 }
 
+func stripProf(p []c2.VerifC12PD) []c2.VerifC12PD {
+	o := make([]c2.VerifC12PD, len(p))
+	for i := range p {
+		o[i] = c2.VerifC12PD{Name: p[i].Name, Addr: p[i].Addr}
+	}
+	return o
+}
 func sameDevice(a, b *msess) bool {
 	return a.DevID == b.DevID && a.System == b.System && a.PID == b.PID && a.PPID == b.PPID && a.User == b.User && a.Version == b.Version &&
 		a.Host == b.Host && a.Elev == b.Elev && a.Caps == b.Caps && reflect.DeepEqual(normNet(a.Net), normNet(b.Net))
@@ -1577,7 +1586,7 @@ func doSync(srvM, cliM *msess, script, stop bool, es []sentry, class string) {
 	// which entries ran and succeeded (the documented Script semantics)
 	var ran []sentry
 	for _, e := range es {
-		if e.kind == "bad" {
+		if e.kind == "bad" || e.kind == "cwd" {
 			if stop || !script {
 				break
 			}
@@ -1616,7 +1625,7 @@ func doSync(srvM, cliM *msess, script, stop bool, es []sentry, class string) {
 		out.Add(fmt.Sprintf("CDirect %s %s (%s) %s", srvM.term(), cliM.term(), et[0], term), "direct-"+es[0].kind, lastSync != "", desc)
 	}
 	if r.cli == nil {
-		if !(len(es) > 0 && es[0].kind == "bad" && !script) {
+		if !(len(es) > 0 && (es[0].kind == "bad" || es[0].kind == "cwd") && !script) {
 			desc["stage"] = r.err
 			fail("a "+how+" did not complete: "+r.err, "sync-incomplete-"+strings.Join(names, "+"), desc)
 		}
@@ -1772,9 +1781,13 @@ func doMigration(idx int, st migSetup) {
 		old.SetWorkHours(&w)
 	}
 	if st.proxy {
-		pp, _ := cfg.Raw(proxyProfile(2 + idx))
-		if _, err = old.NewProxy("mig", "127.0.0.1:0", pp); err != nil {
-			setupFail("proxy")
+		// ordered by the server (MvProxy task), so that the server's own proxy list knows it
+		done := false
+		if j, err := ss.Task(task.Proxy("mig", "127.0.0.1:0", proxyProfile(2+idx))); err == nil {
+			done = waitFor(10*time.Second, func() bool { return j.IsDone() }) && !j.IsError()
+		}
+		if !done {
+			setupFail("proxy task")
 			return
 		}
 	}
@@ -1786,6 +1799,7 @@ func doMigration(idx int, st migSetup) {
 	}
 	srvB := zeroSess(false)
 	srvM := observe(ss, srvB)
+	pxBefore := c2.VerifC12Proxies(ss)
 	jid := uint16(0x4D00 + idx)
 	job := c2.VerifC12TrackJob(ss, jid, task.MvMigrate)
 	// the new process has its own per-process half of the ID
@@ -1854,6 +1868,7 @@ func doMigration(idx int, st migSetup) {
 	desc["server_ids"] = map[string]interface{}{"session_id_tail": intsOf(srvA.ID[device.MachineIDSize:]), "device_id_tail": intsOf(srvA.DevID[device.MachineIDSize:])}
 	out.Add(fmt.Sprintf("CMigrate %s %s %s %s (Ok (%s, %s, %s))", oldM.term(), base.term(), machTerm(nsM), srvM.term(), nsM.term(), pdTerm(pds), srvA.term()),
 		"migration-in-process", true, desc)
+	out.Add(fmt.Sprintf("CServerProxies %d %s [] %s", kSyncMigrate, pdTerm(pxBefore), pdTerm(c2.VerifC12Proxies(ss))), "migration-server-proxy-list", len(pxBefore) > 0, desc)
 	// oracle: identity, key material, settings and proxy list survive; the server's view equals the migrated client's
 	var o [32]byte
 	copy(o[:], orig[:])
@@ -1874,6 +1889,9 @@ func doMigration(idx int, st migSetup) {
 		fail("after the migration the server's view of the settings differs from the new client's", "migrate-settings-server", desc)
 	case !sameDevice(srvA, nsM):
 		fail("after the migration the server's device details differ from the new client's", "migrate-device-server", desc)
+	case !pdEqual(stripProf(pds), c2.VerifC12Proxies(ss)):
+		desc["server_proxy_list_before"], desc["server_proxy_list_after"] = fmt.Sprint(pxBefore), fmt.Sprint(c2.VerifC12Proxies(ss))
+		fail("after the Migrate result was absorbed the server's proxy list is not the migrated client's (name / bind address)", "migrate-server-proxy-list", desc)
 	case !pdEqual(expectProxies(kMigrate, oldM), pds):
 		fail("after the migration the new client's proxy differs from the old client's (name / bind address / profile)", "migrate-proxy", desc)
 	}
@@ -2462,7 +2480,26 @@ func main() {
 				doSync(srv, cli, true, false, []sentry{pool()[i], pool()[j]}, "pair")
 			}
 		}
-		nt := 30
+		// a failing step after / before / between the synchronising steps, stop-on-error and continue-on-error
+		for i := 0; i < 7; i++ {
+			fl := sentry{kind: "bad", name: "BrokenTime"}
+			if i%2 == 0 {
+				fl = sentry{kind: "cwd", name: "CwdMissingDir"}
+			}
+			for _, stop := range []bool{true, false} {
+				srv, cli := mk()
+				doSync(srv, cli, true, stop, []sentry{pool()[i], fl}, "fail-after")
+				srv, cli = mk()
+				doSync(srv, cli, true, stop, []sentry{fl, pool()[i]}, "fail-before")
+				srv, cli = mk()
+				doSync(srv, cli, true, stop, []sentry{pool()[i], fl, pool()[(i+3)%7]}, "fail-between")
+			}
+		}
+		{
+			srv, cli := mk()
+			doSync(srv, cli, false, false, []sentry{{kind: "cwd", name: "CwdMissingDir"}}, "direct")
+		}
+		nt := 20
 		if thorough {
 			nt = 1500
 		}
@@ -2486,7 +2523,7 @@ func main() {
 		}
 		sets := []migSetup{
 			{sleep: 70 * time.Millisecond, jitter: 7, kill: time.Unix(now.Unix()+86400*400, 0), comment: "client: SetDuration(70ms, 7), SetKillDate(now+400d)"},
-			{sleep: 45 * time.Millisecond, jitter: 0, proxy: true, work: wh, comment: "client: SetDuration(45ms, 0), SetWorkHours(all days 00:00-23:59), NewProxy(mig, 127.0.0.1:0, P)"},
+			{sleep: 45 * time.Millisecond, jitter: 0, proxy: true, work: wh, comment: "client: SetDuration(45ms, 0), SetWorkHours(all days 00:00-23:59); server: Task(task.Proxy(mig, 127.0.0.1:0, P)) completed"},
 		}
 		if thorough {
 			for i := 0; i < 8; i++ {
